@@ -64,16 +64,54 @@ func runC19(ctx *Ctx) {
 	if ctx.Thorough {
 		vectors = append(vectors, [5]int{3, 3, 3, 3, 3}, [5]int{3, 1, 1, 0, 2}, [5]int{3, 0, 0, 0, 0}, [5]int{2, 2, 2, 0, 0}, [5]int{2, 2, 0, 2, 0})
 	}
-	kinds := []string{"close", "garbage-ff", "garbage-00", "truncated", "garbage-2047", "garbage-2048", "garbage-4096", "bad-choice", "bad-length", "bad-count"}
+	kinds := []string{"close", "garbage-ff", "garbage-00", "truncated", "garbage-2047", "garbage-2048", "garbage-4096", "bad-choice", "bad-length", "bad-count", "bad-padding"}
 	_, acfg := n2config(explore.Replay(nil))
 	type job struct {
 		v    [5]int
 		k    int
 		kind string
+		imsi string // "" = the default
 	}
 	var jobs []job
 	faultFree := map[[5]int]n2.Result{}
-	for _, v := range vectors {
+	// other subscribers (RAN-UE-NGAP-IDs 255/256 and 9999/0 for the two UEs: anything derived from a UE's identity - an exit
+	// status, an index - takes other values there): close and short garbage at every point of one vector
+	type imsiRun struct {
+		imsi string
+		res  n2.Result
+	}
+	var imsiRuns []imsiRun
+	imsiVec := [5]int{2, 1, 0, 1, 2}
+	for _, imsi := range []string{"001010000000255", "001010000009999", "001010000000511"} {
+		emu := n2.DefaultEmuConfig()
+		emu.IMSI = imsi
+		emu.Reg, emu.Pdu, emu.Svc, emu.Rel, emu.Dereg = imsiVec[0], imsiVec[1], imsiVec[2], imsiVec[3], imsiVec[4]
+		ac := acfg
+		ac.IMSI = imsi
+		a := refamf.New(ac, refamf.DefaultChoices(), codec)
+		res := n2.Run(n2.Opts{YAML: emu.YAML(), AMF: a, Strace: true, Horizon: 60 * time.Second})
+		if res.HarnessErr != "" || len(a.Viol) > 0 || res.ExitCode != 0 {
+			r.Violate("fault-free-baseline", fmt.Sprintf("counts=%v imsi=%s", imsiVec, imsi), fmt.Sprintf("the fault-free conversation does not complete: %v %v exit %d (see C02)", res.HarnessErr, a.Viol, res.ExitCode), nil)
+			continue
+		}
+		imsiRuns = append(imsiRuns, imsiRun{imsi, res})
+		for k := 1; k <= len(res.Down); k++ {
+			for _, kind := range []string{"close", "garbage-ff", "truncated"} {
+				jobs = append(jobs, job{imsiVec, k, kind, imsi})
+			}
+		}
+	}
+	origOf := func(j job) []byte {
+		if j.imsi != "" {
+			for _, ir := range imsiRuns {
+				if ir.imsi == j.imsi {
+					return ir.res.Down[j.k-1]
+				}
+			}
+		}
+		return faultFree[j.v].Down[j.k-1]
+	}
+	for vi, v := range vectors {
 		emu := n2.DefaultEmuConfig()
 		emu.Reg, emu.Pdu, emu.Svc, emu.Rel, emu.Dereg = v[0], v[1], v[2], v[3], v[4]
 		a := refamf.New(acfg, refamf.DefaultChoices(), codec)
@@ -89,7 +127,16 @@ func runC19(ctx *Ctx) {
 		faultFree[v] = res
 		for k := 1; k <= len(res.Down); k++ {
 			for _, kind := range kinds {
-				jobs = append(jobs, job{v, k, kind})
+				jobs = append(jobs, job{v, k, kind, ""})
+			}
+			if vi == 0 {
+				// the header of every other message kind in front of garbage (a reader that classifies a message by its first
+				// octets before decoding it): the 52 procedure codes the pinned NGAP version defines, on the first vector (a
+				// message with an unknown procedure code is a PDU with an absent value for the library's decoder, not
+				// undecodable octets: outside this property)
+				for pc := 0; pc < 52; pc++ {
+					jobs = append(jobs, job{v, k, fmt.Sprintf("other-header-%02x", pc), ""})
+				}
 			}
 		}
 	}
@@ -100,13 +147,25 @@ func runC19(ctx *Ctx) {
 		j := jobs[i]
 		emu := n2.DefaultEmuConfig()
 		emu.Reg, emu.Pdu, emu.Svc, emu.Rel, emu.Dereg = j.v[0], j.v[1], j.v[2], j.v[3], j.v[4]
-		a := refamf.New(acfg, refamf.DefaultChoices(), codec)
-		res := n2.Run(n2.Opts{YAML: emu.YAML(), AMF: a, Strace: true, Fault: &n2.Fault{K: j.k, Kind: j.kind, Data: c19faulty(j.kind, faultFree[j.v].Down[j.k-1])}, Horizon: 30 * time.Second, KeepGoing: true})
-		cs := fmt.Sprintf("counts=%v fault at downlink message %d (%s): %s", j.v, j.k, c19msgName(codec, faultFree[j.v].Down[j.k-1]), j.kind)
-		out := c19judge(r, codec, cs, j.kind, faultFree[j.v].Down[j.k-1], res)
+		ac := acfg
+		if j.imsi != "" {
+			emu.IMSI, ac.IMSI = j.imsi, j.imsi
+		}
+		a := refamf.New(ac, refamf.DefaultChoices(), codec)
+		orig := origOf(j)
+		res := n2.Run(n2.Opts{YAML: emu.YAML(), AMF: a, Strace: true, Fault: &n2.Fault{K: j.k, Kind: j.kind, Data: c19faulty(j.kind, orig)}, Horizon: 30 * time.Second, KeepGoing: true})
+		cs := fmt.Sprintf("counts=%v fault at downlink message %d (%s): %s", j.v, j.k, c19msgName(codec, orig), j.kind)
+		if j.imsi != "" {
+			cs += " imsi=" + j.imsi
+		}
+		out := c19judge(r, codec, cs, j.kind, orig, res)
 		l.Case(cs, true, out)
+		hk := j.kind
+		if strings.HasPrefix(hk, "other-header-") {
+			hk = "other-header-*"
+		}
 		hmu.Lock()
-		hist[j.kind+" -> "+out]++
+		hist[hk+" -> "+out]++
 		hmu.Unlock()
 	})
 	// the NG Setup procedure's other branch: the AMF refuses the first request with an NG SETUP FAILURE carrying Time To
@@ -150,7 +209,7 @@ func runC19(ctx *Ctx) {
 			r.Set(fmt.Sprintf("traces_validated_realtime_%v", v), same)
 		}
 	}
-	r.Rule = fmt.Sprintf("for %d count vectors, every downlink message index k of the fault-free conversation (K = 6..19) x {AMF closes instead of sending message k; sends ff ff ff; sends 00; sends the first half of the message; sends 2047 / 2048 / 4096 octets of ff (just below, at and above the emulator's read buffer); sends the message with its PDU choice index destroyed; with its outer length determinant pointing beyond the end; with its IE count 256 too large} = %d fault points, plus each fault kind as the reply that follows an NG SETUP FAILURE with Time To Wait, each run as the real process under strace (sendmsg/recvmsg on the N2 descriptor = ground truth of what the emulator consumed and sent); "+
+	r.Rule = fmt.Sprintf("for %d count vectors, every downlink message index k of the fault-free conversation (K = 6..19) x {AMF closes instead of sending message k; sends ff ff ff; sends 00; sends the first half of the message; sends 2047 / 2048 / 4096 octets of ff (just below, at and above the emulator's read buffer); sends the message with its PDU choice index destroyed; with its outer length determinant pointing beyond the end; with its IE count 256 too large; with non-zero padding bits} + on the first vector the header of each of the 52 defined procedure codes in front of garbage + close / ff ff ff / truncation for three other subscribers (RAN-UE-NGAP-IDs 255/256, 9999/0, 511/512) = %d fault points, plus each fault kind as the reply that follows an NG SETUP FAILURE with Time To Wait, each run as the real process under strace (sendmsg/recvmsg on the N2 descriptor = ground truth of what the emulator consumed and sent); "+
 		"oracle: the process terminates within a 30 s horizon; if a recvmsg returned 0 / an error / the faulty octets, or a sendmsg failed (the emulator observed the fault), then exit status != 0, no completion banner and no sendmsg afterwards; exit 0 only if the faulty message was never consumed; the message after Registration Complete is exempt for the garbage kinds (deliberately ignored); faulty octets that the reference codec still decodes are out of scope; non-trivial = all; distinct = (vector, k, kind)", len(vectors), len(jobs))
 	r.Assume("strace -f is the monitor (ptrace available in the sandbox)", "test mode reports no sessions (only traffic mode prints them): 'reports a session it did not obtain' has nothing to observe here",
 		"time shim as in C01; thorough replays two conversations with real sleeps and requires byte-identical uplink histories")
@@ -162,6 +221,11 @@ func runC19(ctx *Ctx) {
 // outer length determinant destroyed.
 func c19faulty(kind string, orig []byte) []byte {
 	fill := func(n int) []byte { return bytes.Repeat([]byte{0xff}, n) }
+	if strings.HasPrefix(kind, "other-header-") {
+		var pc int
+		fmt.Sscanf(kind, "other-header-%02x", &pc)
+		return []byte{0x00, byte(pc), 0x40, 0x07, 0xff, 0xff, 0xff}
+	}
 	switch kind {
 	case "garbage-ff":
 		return fill(3)
@@ -175,6 +239,14 @@ func c19faulty(kind string, orig []byte) []byte {
 		return fill(2048)
 	case "garbage-4096":
 		return fill(4096)
+	case "bad-padding":
+		// a well-formed message whose padding bits in front of the first length determinant are not zero (X.691 10.1:
+		// padding bits are zero; the library's decoder refuses them)
+		b := append([]byte{}, orig...)
+		if len(b) > 2 {
+			b[2] |= 0x3f
+		}
+		return b
 	case "bad-choice":
 		b := append([]byte{}, orig...)
 		b[0] = 0x60 // NGAP-PDU choice index 3 of 0..2
